@@ -136,7 +136,14 @@ RULE = ("generated files: decimal lattices (7 spacings, negative / positive / ze
         "written 0.0 in some rows and -0.0 in others, integer factors beyond 2^53, scale(val=), factor -0.0; arrays the caller "
         "hands over (lookup points, get_rates(data=), ndarray factors, from_custom data) must stay byte-identical; arrays the "
         "library RETURNS (data, get_rates, both spatial layouts, magnitude_counts, target_event_rates) are overwritten in place "
-        "before every second check of the views; one case in eight runs with numeric / user warnings as errors. A file is "
+        "before every second check of the views; one case in eight runs with numeric / user warnings as errors. Round 7: 30 % of the "
+        "cases replace the forecast by copy.copy / copy.deepcopy / a pickle round trip of itself right after loading or before a "
+        "random call of the history (class h); entry points 'prepared_region' (a user loader returns a region already bound to "
+        "OTHER magnitude bins) and 'subclass' (a user subclass of GriddedForecast with __len__ = 0 and an overridden accessor, "
+        "through its inherited load_ascii / as loader) (class j); read 'bad' = six calls the library refuses, caught, inside a "
+        "history (class i); the strict share also runs under numpy.errstate(divide / invalid = raise) and a decimal context of "
+        "2..6 digits (class k); read 'empty' = no lookup point / a target catalog without events (class m, Cartesian only); rates "
+        "1e280, factors 1e7 and 1e-300 (class n, finite). A file is "
         "non-trivial when it has >= 2 cells and >= 2 magnitude bins or a hole or a zero flag; distinct by (rows, ops).")
 
 EPS_BAND = Fraction(1, 10 ** 10)
@@ -178,7 +185,7 @@ def gen_rate(rng):
     if k < 0.1:
         return 0.0
     if k < 0.2:
-        return float(rng.choice([1e-12, 5e-324, 1.0, 2.5e-5, 1e-300, -0.0, 1e-310, 2.2250738585072014e-308, 1.5e-323, 4.9e-320]))
+        return float(rng.choice([1e-12, 5e-324, 1.0, 2.5e-5, 1e-300, -0.0, 1e-310, 2.2250738585072014e-308, 1.5e-323, 4.9e-320, 1e280]))
     return 10 ** rng.uniform(-8, 1) * rng.random()
 
 
@@ -201,7 +208,7 @@ ARRAY_KINDS = ["row", "col", "full", "0d", "np64", "row2d", "one", "oneone", "in
 
 # read-only calls of a history: target_event_rates(catalog, scale=True / False), get_rates, sum, event_count,
 # spatial_counts(), spatial_counts(cartesian=True), magnitude_counts(), data, and the small accessors
-READS = ["tr1", "tr1", "tr0", "gr", "gri", "grd", "sum", "ec", "sc", "scc", "scc", "mc", "data", "misc"]
+READS = ["tr1", "tr1", "tr0", "gr", "gri", "grd", "sum", "ec", "sc", "scc", "scc", "mc", "data", "misc", "bad", "empty"]
 
 
 def gen_ops(rng):
@@ -219,7 +226,7 @@ def gen_ops(rng):
                 # array, a numpy scalar (the array is rebuilt from the seed when the case is run)
                 ops.append(["s", "arr:" + rng.choice(ARRAY_KINDS) + ":%d" % rng.randrange(10 ** 6)])
                 continue
-            v = rng.choice([0.5, 2.0, 1.0, 0.0, 1e-3, 3.0, 0.1, rng.uniform(0, 5), 2, 1, 7, 2 ** 53 + 1, 2 ** 63 - 1, -0.0, 5e-324,
+            v = rng.choice([0.5, 2.0, 1.0, 0.0, 1e-3, 3.0, 0.1, rng.uniform(0, 5), 2, 1, 7, 2 ** 53 + 1, 2 ** 63 - 1, -0.0, 5e-324, 1e7, 1e-300,
                             "kw:" + hx(rng.choice([0.25, 4.0, 1.0]))])
             ops.append(["s", v if isinstance(v, str) else ("int:%d" % v if isinstance(v, int) else hx(v))])
         else:
@@ -293,12 +300,14 @@ def gen_cart_case(rng, tier):
     if rng.random() < 0.15:
         # other ways into the same loader: a caller-supplied loader (any file extension), from_custom, load_ascii itself;
         # file names with several dots / underscores / upper-case
-        kind = rng.choice(["loader", "loader", "from_custom", "load_ascii", "default"])
+        kind = rng.choice(["loader", "loader", "from_custom", "from_custom", "prepared_region", "prepared_region", "subclass",
+                           "subclass", "load_ascii", "default"])
         stem = rng.choice(["f", "a.b", "model_2020-01-01", "x.y.z", "UPPER", "helmstetter_et_al.hkj.aftershock-fromXML", "d.dat"])
         ext = ".dat" if kind == "default" else rng.choice([".dat", ".txt", ".forecast", "", ".DAT", ".dat.bak", ".csv"])
         case["via"] = dict(kind=kind, fname=stem + ext)
     case["probes"] = gen_probes(rng, case, tier)
     case["callform"] = rng.randrange(12)
+    add_copy_plan(rng, case)
     return case
 
 
@@ -329,7 +338,44 @@ def gen_big_cart_case(rng, tier):
                 oracle_only=True)
     case["probes"] = gen_probes(rng, case, tier)
     case["callform"] = rng.randrange(12)
+    add_copy_plan(rng, case)
     return case
+
+
+def add_copy_plan(rng, case):
+    """round 7, class (h): the forecast object is replaced by copy.copy / copy.deepcopy / a pickle round trip of itself right after
+    loading (at = -1) or before call number `at` of the history; only the copy is used afterwards"""
+    if rng.random() < 0.3:
+        case["copy"] = dict(at=rng.choice([-1, -1, rng.randint(0, max(0, len(case["ops"])))]),
+                            form=rng.choice(["copy", "deepcopy", "pickle"]))
+
+
+_USERCLS = {}
+
+
+def user_forecast_class():
+    """a user subclass of GriddedForecast: a length (0: the object is falsy), an accessor overridden consistently; registered
+    under the module so that its instances can be pickled"""
+    if not _USERCLS:
+        from csep.core.forecasts import GriddedForecast
+
+        class UserForecast(GriddedForecast):
+            def __len__(self):
+                return 0
+
+            def spatial_counts(self, cartesian=False):
+                return super().spatial_counts(cartesian=cartesian)
+        UserForecast.__qualname__ = "UserForecast"
+        UserForecast.__module__ = __name__
+        globals()["UserForecast"] = UserForecast
+        _USERCLS["c"] = UserForecast
+    return _USERCLS["c"]
+
+
+def copy_of(x, form):
+    import copy
+    import pickle
+    return copy.copy(x) if form == "copy" else copy.deepcopy(x) if form == "deepcopy" else pickle.loads(pickle.dumps(x))
 
 
 def gen_lines(rng, rows):
@@ -435,6 +481,7 @@ def gen_quad_case(rng, tier, layout):
     start, end, ops = gen_ops(rng)
     case = dict(layout=layout, swap=False, rows=rows, qk=qk, fmt="repr", start=start, end=end, ops=ops, malformed=None,
                 qspell=rng.random() < 0.4)
+    add_copy_plan(rng, case)
     case["probes"] = gen_probes(rng, case, tier)
     return case
 
@@ -783,6 +830,24 @@ def load_impl(case, fn):
                     lambda: GriddedForecast.load_ascii(fn, start, end, None, case["swap"]),
                     lambda: GriddedForecast.load_ascii(ascii_fname=fn, swap_latlon=case["swap"], end_date=end, start_date=start,
                                                        name="given")][form % 3]()
+        if via == "subclass":
+            # a user subclass of GriddedForecast (a length, a truth value, an accessor overridden consistently) through its
+            # inherited class methods / as the caller's loader
+            UserForecast = user_forecast_class()
+            if form % 2:
+                return UserForecast.load_ascii(fn, start_date=start, end_date=end, swap_latlon=case["swap"])
+            return csep.load_gridded_forecast(fn, loader=UserForecast.load_ascii, swap_latlon=case["swap"], start_date=start,
+                                              end_date=end)
+        if via == "prepared_region":
+            # a user loader that returns a region prepared beforehand — already bound to OTHER magnitude bins (a testing region
+            # shared with an observed catalog): the forecast's magnitudes are the table's, not the region's old ones
+            def pieces2(fname, swap):
+                from csep.core.regions import create_space_magnitude_region
+                f0 = GriddedForecast.load_ascii(fname, swap_latlon=swap)
+                mags0 = numpy.array(f0.magnitudes)
+                reg = create_space_magnitude_region(f0.region, numpy.arange(2.0, 9.0, 0.5) if form % 2 else mags0[:1] - 1.0)
+                return numpy.array(f0.data), reg, mags0
+            return GriddedForecast.from_custom(pieces2, func_args=(fn, case["swap"]), start_time=start, end_time=end)
         if via == "from_custom":
             def pieces(fname, swap):
                 f0 = GriddedForecast.load_ascii(fname, swap_latlon=swap)
@@ -857,6 +922,10 @@ def run_case(run, drv, pending, case, tmpdir, tag, tier_quick=True):
         return
     if not recheck_live(run, case):
         return
+    cplan = case.get("copy")
+    if cplan and cplan["at"] == -1:
+        run.count("forecast replaced by its " + cplan["form"] + " right after loading")
+        fc = copy_of(fc, cplan["form"])
     # ---- structure: magnitudes, cells, flags, data layout
     if numpy.asarray(fc.magnitudes).dtype.kind not in "fiu":
         run.oracle_failure(case, f"magnitudes are not numbers: {numpy.asarray(fc.magnitudes)!r}")
@@ -1205,6 +1274,36 @@ def run_case(run, drv, pending, case, tmpdir, tag, tier_quick=True):
                 fc.get_index_of(numpy.array([pts[j][0] for j in pts_in]), numpy.array([pts[j][1] for j in pts_in]))
                 fc.get_magnitude_index(numpy.array([pts[j][2] for j in pts_in]))
             return (dict(skip=True), None) if ok else (None, "magnitudes / cell origins / counts of cells and bins changed")
+        if kind == "bad":
+            # round 7, class (i): calls the library refuses — the exception is caught and the history goes on; whatever they
+            # raise, the forecast must be as it was (checked by the snapshot and the views right after)
+            n_ref = 0
+            for bad in (lambda: fc.get_rates(numpy.array([1e6]), numpy.array([1e6]), numpy.array([orc.mags[0]])),
+                        lambda: fc.get_rates(numpy.array([orc.order[0][0]]), numpy.array([orc.order[0][2]]), numpy.array([-1e6])),
+                        lambda: fc.target_event_rates("not a catalog", scale=True),
+                        lambda: fc.scale_to_test_date("2010-01-01"),
+                        lambda: fc.get_magnitude_index(numpy.array([-1e9])),
+                        lambda: fc.get_index_of(numpy.array([1e6]), numpy.array([1e6])) if lay == "cart" else None):
+                try:
+                    bad()
+                except Exception:
+                    n_ref += 1
+            run.count("calls refused by the library inside a history", n_ref)
+            return dict(skip=True), None
+        if kind == "empty" and lay != "cart":
+            # (zero lookup points on a quadtree region: the unchanged tree fails — QuadtreeGrid2D.get_index_of returns a plain
+            # list for an empty array and get_rates calls .astype on it — so this form is left out for quadtree layouts)
+            run.count("read-skipped:empty lookup on a quadtree region (unsupported by the unchanged tree)")
+            return dict(skip=True), None
+        if kind == "empty":
+            # class (m): no lookup point / a target catalog without events
+            from csep.core import catalogs as catalogs_
+            e_ = numpy.array([])
+            r0 = fc.get_rates(e_, e_, e_)
+            rt, nf = fc.target_event_rates(catalogs_.CSEPCatalog(data=[]), scale=False)
+            if len(r0) != 0 or len(rt) != 0 or not close(float(nf), math.fsum(want.ravel())):
+                return None, f"no lookup points: get_rates gives {r0!r}, target_event_rates gives {rt!r} and the total {float(nf)!r}"
+            return dict(skip=True), None
         raise RuntimeError(f"unknown read {kind}")
 
     def do_read(kind):
@@ -1238,7 +1337,12 @@ def run_case(run, drv, pending, case, tmpdir, tag, tier_quick=True):
     factor = 1
     enc_ops, enc_calls, observations = [], [], []
     enc_aops, date_asks = [], []
-    for op in case["ops"]:
+    for nop_, op in enumerate(case["ops"]):
+        if cplan and cplan["at"] == nop_:
+            run.count("forecast replaced by its " + cplan["form"] + " in the middle of a history")
+            fc = copy_of(fc, cplan["form"])
+            if not views_ok(f"after replacing the forecast by its {cplan['form']}"):
+                return
         if op[0] == "r":
             o = do_read(op[1])
             if o is None:
@@ -1395,7 +1499,10 @@ def run_case_w(run, drv, pending, case, tmpdir, tag, tier_quick=True):
     import warnings
     if int(hashlib.sha1(json.dumps(case["rows"][:3]).encode()).hexdigest()[:2], 16) % 8 == 0 or case.get("strict_warnings"):
         run.count("run with RuntimeWarning / UserWarning / FutureWarning as errors")
-        with warnings.catch_warnings():
+        import decimal
+        with warnings.catch_warnings(), numpy.errstate(divide="raise", invalid="raise"), decimal.localcontext() as dctx:
+            # (round 7, class k: numpy raises on divide / invalid, the decimal context has 2..6 digits)
+            dctx.prec = 2 + len(case["rows"]) % 5
             for cat_ in (RuntimeWarning, UserWarning, FutureWarning):
                 warnings.simplefilter("error", cat_)
             return run_case(run, drv, pending, case, tmpdir, tag, tier_quick)
